@@ -120,6 +120,9 @@ def _compare(out, key, op, given, info, pt, observed, expected=None, record=True
     """observed: list of sympy values (Cartesian components / [divergence]) at pt.
     expected: list of sympy values or None (then only TLC decides)."""
     pairs = [fc.pair_of(v) for v in observed]
+    if expected is not None and any(fc.has_inverse_trig(v) for v in list(expected) + list(observed)):
+        out.verdicts.append(("outside", key, "value at the point is not reduced to a polynomial in the bare angles"))
+        return
     if expected is not None:
         bad = [i for i, (o, e) in enumerate(zip(observed, expected)) if not fc.is_zero(sp.sympify(o) - e)]
         if bad:
@@ -262,7 +265,7 @@ def replay_curv(case, pts_raw):
         return [mono(c) if i + 1 == comp else sp.S.Zero for i in range(n)]
     frame = fc.frame_of_cart(system)
     given_cart = fn(cq) + [sp.S.Zero] * (3 - n)              # padded with zeros: the statement's meaning
-    cart_f = [sp.simplify(sum(given_cart[i] * frame[i][j] for i in range(3))) for j in range(3)]
+    cart_f = [sum(given_cart[i] * frame[i][j] for i in range(3)) for j in range(3)]
     terms = [fc.terms_of(c, TRACE_D) for c in cart_f]
     poly = all(t is not None for t in terms)
     for op in ("div", "curl"):
@@ -352,10 +355,7 @@ def replay_any(case):
 
 
 # ---- driver ------------------------------------------------------------------------------------------
-def validate_trace(run: Run, sc, records, label):
-    """code -> spec: TLC decides every recorded value."""
-    if not records:
-        return
+def _tlc_trace(sc, records, label):
     path = sc / f"c12_{label}.ndjson"
     with open(path, "w") as f:
         for r in records:
@@ -364,15 +364,19 @@ def validate_trace(run: Run, sc, records, label):
                     constants=dict(D=TRACE_D, MaxDeg=0, MaxTerms=0, EmitDeg=0, EmitTerms=0),
                     invariants=["Validate", "CurlGradZero", "DivCurlZero"], postcondition="AllSeen")
     res = run_tlc("FieldOpsTrace", cfg, sc, workers=1, env={"TRACE_FILE": str(path)}, allow_violation=False)
-    run.add_tlc(res, f"trace validation ({label}): {len(records)} recorded operator values recomputed by TLC "
-                     f"(FieldOpsTrace: Pad/Grad/Div/Curl/PEval, D={TRACE_D})")
     if res.distinct != len(records):
         raise RuntimeError(f"trace validation visited {res.distinct} states for {len(records)} records")
-    rejected = []
-    for line in res.raw_prints:
-        v = parse_tla_tuple(line)
-        if v and v[0] == "REJECT":
-            rejected.append(int(v[1]))
+    rejected = [int(v[1]) for v in map(parse_tla_tuple, res.raw_prints) if v and v[0] == "REJECT"]
+    return res, rejected
+
+
+def validate_trace(run: Run, sc, records, label):
+    """code -> spec: TLC decides every recorded value."""
+    if not records:
+        return []
+    res, rejected = _tlc_trace(sc, records, label)
+    run.add_tlc(res, f"trace validation ({label}): {len(records)} recorded operator values recomputed by TLC "
+                     f"(FieldOpsTrace: Pad/Grad/Div/Curl/PEval, D={TRACE_D})")
     run.traces += len(records)
     run.coverage.setdefault("trace_records_validated", {})[label] = len(records)
     run.coverage.setdefault("trace_records_rejected", {})[label] = len(rejected)
@@ -381,6 +385,22 @@ def validate_trace(run: Run, sc, records, label):
         run.violation(r["key"], f"TLC rejects the recorded {r['op']} value {r['val']} at point {r['pt']} "
                                 f"(system {r.get('sys')}, route {r.get('route')}, field components {r['comps']})",
                       r.get("replay", {}))
+    return rejected
+
+
+def selftest_trace(run: Run, sc, records):
+    """Binding self-test: one recorded value is corrupted; TLC must reject exactly that record."""
+    sample = [dict(r) for r in records if r["op"] == "curl"][:30]
+    if len(sample) < 10:
+        return
+    k = 6
+    val = [list(v) for v in sample[k]["val"]]
+    val[1] = [val[1][0] + val[1][1], val[1][1]]           # second component + 1
+    sample[k]["val"] = val
+    _, rejected = _tlc_trace(sc, sample, "selftest")
+    if rejected != [k + 1]:
+        raise RuntimeError(f"trace self-test: corrupted record {k + 1}, TLC rejected {rejected}")
+    run.coverage["selftest"] = "a corrupted curl value in a 30-record trace was rejected by TLC (and only that record)"
 
 
 def collect(run: Run, results, label):
@@ -445,7 +465,8 @@ def main() -> int:
         results = list(pmap(pool, replay_any, ccases, chunk=8))
         records += collect(run, results, "curvilinear_monomial_fields_route_c")
         # 3. code -> spec
-        validate_trace(run, sc, records, "all")
+        rejected = set(validate_trace(run, sc, records, "all"))
+        selftest_trace(run, sc, [r for i, r in enumerate(records, 1) if i not in rejected])
         # 4. generic identities
         if t["generic"]:
             results = list(pmap(pool, replay_any, generic_cases(), chunk=1))
